@@ -1,5 +1,4 @@
-import PV.Lemmas.Socket
-import PV.Spec.Socket
+import PV.Lemmas.SocketCalls
 /-!
 # C10 — Socket modes and lifecycle
 
@@ -155,93 +154,6 @@ example : call { demoSockC10 with } .close [{ sys := .close, ret := .ok 0 }] =
 
 /-! ## 3. `timeout_semantics`, `nonblocking_never_waits` -/
 
-/-- a `poll` carries the socket's descriptor, one pollfd, and the timeout `T` if `T > 0`, else −1 (wait for ever) -/
-def pollArgsOk (fd timeout : Int) (ev : Ev) : Prop :=
-  match ev.call with
-  | .poll f _ t n => f = fd ∧ t = (if timeout > 0 then timeout else -1) ∧ n = 1
-  | _ => True
-
-private theorem pollArgsOk_of_ne (fd t : Int) (ev : Ev) (h : ev.call.sys ≠ .poll) : pollArgsOk fd t ev := by
-  unfold pollArgsOk; cases hc : ev.call <;> simp_all [Issued.sys]
-
-private theorem pollArgsOk_pollCall (s : Sock) (cond : Int) (r : Res) : pollArgsOk s.fd s.timeout ⟨pollCall s cond, r⟩ := by
-  simp [pollArgsOk, pollCall, pollTimeout]
-
-private theorem loop_polls (s : Sock) (cond : Int) (call : Issued) (msg : String) (hc : call.sys ≠ .poll) :
-    TrAll (pollArgsOk s.fd s.timeout) (runLoop (loopCfg s cond call msg)) := by
-  unfold runLoop
-  apply TrAll.liftLoop
-  intro sc e ev hev
-  rcases ioLoop_calls _ _ _ _ ev hev with h | h
-  · have : ev = ⟨pollCall s cond, ev.res⟩ := by cases ev; simp_all [loopCfg]
-    rw [this]; exact pollArgsOk_pollCall s cond _
-  · exact pollArgsOk_of_ne _ _ _ (by rw [h]; exact hc)
-
-private theorem ioWait_polls (s : Sock) (cond : Int) : TrAll (pollArgsOk s.fd s.timeout) (ioWait s cond) := by
-  unfold ioWait
-  tr_all (simp [pollArgsOk])
-  apply TrAll.liftLoop
-  intro sc e ev hev
-  have := pollLoop_calls _ _ _ ev hev
-  have : ev = ⟨pollCall s cond, ev.res⟩ := by cases ev; simp_all
-  rw [this]; exact pollArgsOk_pollCall s cond _
-
-private theorem setFdBlocking_polls (fd t fd' : Int) (b : Bool) : TrAll (pollArgsOk fd t) (setFdBlocking fd' b) := by
-  unfold setFdBlocking; tr_all (simp [pollArgsOk])
-private theorem setDetails_polls (fd t : Int) (s : Sock) : TrAll (pollArgsOk fd t) (setDetailsFromFd s) := by
-  unfold setDetailsFromFd; tr_all (simp [pollArgsOk])
-private theorem cloexecBlock_polls (fd t : Int) (p : Bool) (a b c d e : Int) : TrAll (pollArgsOk fd t) (fdCloexecBlock p a b c d e) := by
-  unfold fdCloexecBlock; tr_all (simp [pollArgsOk])
-private theorem newFromFd_polls (fd t fd' : Int) : TrAll (pollArgsOk fd t) (newFromFd fd') := by
-  unfold newFromFd; tr_all (simp [pollArgsOk])
-  all_goals first | exact setDetails_polls _ _ _ | exact setFdBlocking_polls _ _ _ _
-private theorem close_polls (fd t : Int) (s : Sock) : TrAll (pollArgsOk fd t) (close s) := by
-  unfold close; tr_all (simp [pollArgsOk])
-private theorem checkConnectResult_polls (fd t : Int) (s : Sock) : TrAll (pollArgsOk fd t) (checkConnectResult s) := by
-  unfold checkConnectResult; tr_all (simp [pollArgsOk])
-
-private theorem callM_polls (s : Sock) (c : Call) : TrAll (pollArgsOk s.fd s.timeout) (callM s c) := by
-  cases c <;> simp only [callM]
-  case bind a r => unfold bind; tr_all (simp [pollArgsOk])
-  case listen => unfold listen; tr_all (simp [pollArgsOk])
-  case close => tr_all (simp [pollArgsOk]); exact close_polls _ _ _
-  case shutdown => unfold shutdown; tr_all (simp [pollArgsOk])
-  case setBufferSize => unfold setBufferSize; tr_all (simp [pollArgsOk])
-  case setKeepalive => unfold setKeepalive; tr_all (simp [pollArgsOk])
-  case setBlocking => tr_all (simp [pollArgsOk])
-  case setBacklog => tr_all (simp [pollArgsOk])
-  case setTimeout => tr_all (simp [pollArgsOk])
-  case getLocal => unfold getAddress; tr_all (simp [pollArgsOk])
-  case getRemote => unfold getAddress; tr_all (simp [pollArgsOk])
-  case checkConnectResult => exact checkConnectResult_polls _ _ _
-  case ioWait cnd => tr_all (simp [pollArgsOk]); exact ioWait_polls _ _
-  case receive bn n =>
-    unfold receive; tr_all (simp [pollArgsOk])
-    exact loop_polls _ _ _ _ (by simp [recvCall, Issued.sys])
-  case receiveFrom w bn n =>
-    unfold receiveFrom; tr_all (simp [pollArgsOk])
-    exact loop_polls _ _ _ _ (by simp [recvfromCall, Issued.sys])
-  case send b n =>
-    unfold send; tr_all (simp [pollArgsOk])
-    exact loop_polls _ _ _ _ (by simp [sendCall, Issued.sys])
-  case sendTo a b n =>
-    unfold sendTo; tr_all (simp [pollArgsOk])
-    exact loop_polls _ _ _ _ (by simp [sendtoCall, Issued.sys])
-  case accept =>
-    unfold accept; tr_all (simp [pollArgsOk])
-    all_goals first
-      | exact loop_polls _ _ _ _ (by simp [Issued.sys])
-      | exact cloexecBlock_polls _ _ _ _ _ _ _ _
-      | exact newFromFd_polls _ _ _
-  case connect a =>
-    unfold connect; tr_all (simp [pollArgsOk])
-    all_goals first
-      | exact ioWait_polls _ _
-      | exact checkConnectResult_polls _ _ _
-      | (apply TrAll.liftLoop
-         intro sc e ev hev
-         exact pollArgsOk_of_ne _ _ _ (by rw [connLoop_calls _ _ _ ev hev]; simp [Issued.sys]))
-
 /-- **timeout_semantics (1)**: whatever the call, the mode and the script, every wait the library makes is
     `poll ({fd}, 1, T)` with the socket's own descriptor and `T = timeout` if `timeout > 0`, else `−1`
     (blocks until the condition holds).  In particular a shortened, zero or negative-but-not-−1 timeout is
@@ -322,28 +234,6 @@ example : (call { demoSockC10 with timeout := 0 } (.receive false 4) [{ sys := .
     (fun r => r.tr.map (·.call)) = some [.poll 5 POLLIN (-1) 1, .recv 5 0 4 0] := by decide
 
 /-! ### non-blocking -/
-
-def noPoll (ev : Ev) : Prop := ev.call.sys ≠ .poll
-
-private theorem nb_loop (s : Sock) (hb : s.blocking = false) (cond : Int) (call : Issued) (msg : String) (hc : call.sys ≠ .poll) :
-    TrAll noPoll (runLoop (loopCfg s cond call msg)) := by
-  unfold runLoop
-  apply TrAll.liftLoop
-  intro sc e ev hev
-  have hs : startPhase (loopCfg s cond call msg) = .data := by simp [startPhase, loopCfg, hb]
-  rw [hs] at hev
-  have := ioLoop_nonblocking_calls (loopCfg s cond call msg) (by simp [loopCfg, hb]) sc e ev hev
-  unfold noPoll; rw [this]; exact hc
-
-private theorem setFdBlocking_np (fd' : Int) (b : Bool) : TrAll noPoll (setFdBlocking fd' b) := by
-  unfold setFdBlocking; tr_all (simp [noPoll, Issued.sys])
-private theorem setDetails_np (s : Sock) : TrAll noPoll (setDetailsFromFd s) := by
-  unfold setDetailsFromFd; tr_all (simp [noPoll, Issued.sys])
-private theorem cloexecBlock_np (p : Bool) (a b c d e : Int) : TrAll noPoll (fdCloexecBlock p a b c d e) := by
-  unfold fdCloexecBlock; tr_all (simp [noPoll, Issued.sys])
-private theorem newFromFd_np (fd' : Int) : TrAll noPoll (newFromFd fd') := by
-  unfold newFromFd; tr_all (simp [noPoll, Issued.sys])
-  all_goals first | exact setDetails_np _ | exact setFdBlocking_np _ _
 
 /-- the calls that may block -/
 def Call.mayWait : Call → Bool
